@@ -27,6 +27,7 @@ def circular_lon(repo, rep):
         while not isinstance(stmt, ast.stmt):
             stmt = stmt._parent
         folded = False
+        fold_node = None
         name = stmt.targets[0].id if isinstance(stmt, ast.Assign) and isinstance(stmt.targets[0], ast.Name) else None
         # same expression: np.minimum(abs(a-b), 360-abs(a-b))  or via the local name
         for n in ast.walk(fi.node):
@@ -36,6 +37,7 @@ def circular_lon(repo, rep):
                     if isinstance(y, ast.BinOp) and isinstance(y.op, ast.Sub) and repo.const(fi.module, y.left) == 360 and unparse(y.right) == unparse(x):
                         if (name and unparse(x) == name) or sub in list(ast.walk(x)):
                             folded = True
+                            fold_node = n
             if isinstance(n, ast.BinOp) and isinstance(n.op, ast.Sub) and isinstance(n.left, ast.BinOp) and isinstance(n.left.op, ast.Mod) \
                     and repo.const(fi.module, n.left.right) == 360 and repo.const(fi.module, n.right) == 180 and sub in list(ast.walk(n.left)):
                 folded = True     # ((a - b + 180) % 360) - 180
@@ -44,7 +46,25 @@ def circular_lon(repo, rep):
         for n in ast.walk(fi.node):
             if isinstance(n, ast.BinOp) and isinstance(n.op, ast.Pow) and sub in list(ast.walk(n.left)):
                 squared_raw = True
-        if folded and not squared_raw:
+        conditional = None
+        if fold_node is not None:
+            a_ = fold_node
+            while a_ is not fi.node and a_ is not None:
+                if isinstance(a_, (ast.If, ast.While, ast.For, ast.Try, ast.IfExp)):
+                    conditional = a_
+                a_ = getattr(a_, "_parent", None)
+        modded = all(any(isinstance(m, ast.BinOp) and isinstance(m.op, ast.Mod) and repo.const(fi.module, m.right) == 360 for m in ast.walk(side))
+                     for side in (sub.left, sub.right)) or any(
+            isinstance(m, ast.BinOp) and isinstance(m.op, ast.Mod) and repo.const(fi.module, m.right) == 360 and sub in list(ast.walk(m.left)) for m in ast.walk(fi.node))
+        if folded and not squared_raw and conditional is not None:
+            rep.fail("R-C14-1", fi.file, conditional.lineno, fi.qualname, unparse(conditional)[:140],
+                     "the fold of the longitude difference into [0, 180] is applied on some paths only: every longitude convention has a seam "
+                     "(0/360 or +-180), so on the other paths stations either side of it come out ~360 degrees apart")
+        elif folded and not squared_raw and not modded and fold_node is not None and call_name(fold_node) != "":
+            rep.fail("R-C14-1", fi.file, sub.lineno, fi.qualname, unparse(stmt)[:140],
+                     "the two longitudes are differenced without both being reduced modulo 360 first: between a [0,360] and a [-180,180] value the "
+                     "difference can exceed 360 and min(d, 360 - d) is then negative / the long way round")
+        elif folded and not squared_raw:
             rep.ok("R-C14-1", f"{fi.file}:{sub.lineno} Coordinates.distance", unparse(sub), "folded into [0, 180] (short way round) before being squared")
         else:
             rep.fail("R-C14-1", fi.file, sub.lineno, fi.qualname, unparse(stmt)[:140],
@@ -124,6 +144,16 @@ def bbox_bounds(repo, rep):
                 rep.ok("R-C14-2", f"{fi.file}:{n.lineno} sel_bbox", unparse(n), "upper bound = largest query value plus the tolerance")
             elif isinstance(v.left, ast.Call) and call_name(v.left) in ("min", "max", "np.min", "np.max"):
                 rep.fail("R-C14-2", fi.file, n.lineno, fi.qualname, unparse(n), "the tolerance must WIDEN the box: min(...) - tolerance, max(...) + tolerance")
+    for n in ast.walk(fi.node):
+        # bounds taken from the (convention-adjusted) query without the tolerance
+        if isinstance(n, ast.Assign) and isinstance(n.targets[0], ast.Name) and isinstance(n.value, ast.Call) and n.value.args \
+                and call_name(n.value) in ("min", "max", "np.min", "np.max") and "coords" in unparse(n.value.args[0]) and n.targets[0].id not in lo | hi:
+            (lo if call_name(n.value).endswith("min") else hi).add(n.targets[0].id)
+            axis_of[n.targets[0].id] = "lon" if "lon" in unparse(n.value.args[0]) else "lat"
+            rep.fail("R-C14-2", fi.file, n.lineno, fi.qualname, unparse(n),
+                     "the bound compared with the station coordinates is not widened by the tolerance: the tolerance has to be applied to the "
+                     "min / max of the query as Coordinates holds it (after its longitude-convention handling); widening the raw query "
+                     "beforehand changes the convention Coordinates detects for boxes near 0/360 or +-180")
     if len(lo) != 2 or len(hi) != 2:
         raise AnalysisError("sel_bbox: min/max +- tolerance bounds not found")
     n_cmp = 0
@@ -353,6 +383,47 @@ def tolerance(repo, rep):
         rep.fail("R-C14-5", fi.file, fi.node.lineno, fi.qualname, "nearest", "nearest must pick the arg-min of the distance")
 
 
+def query_order(repo, rep):
+    """R-C14-9: nearest selection answers the query points one by one, in the order they were asked."""
+    rep.rule("R-C14-9", "sel_nearest: the station index list handed to isel is filled by append inside the loop over the query points and never "
+                        "re-ordered or de-duplicated afterwards (np.unique / sorted / set return ascending dataset order, not query order)")
+    fi = repo.func(f"{SEL}.sel_nearest")
+    S = repo.attrs.SITENAME
+    lst = None
+    for c in ast.walk(fi.node):
+        if isinstance(c, ast.Call) and isinstance(c.func, ast.Attribute) and c.func.attr == "isel":
+            for k in c.keywords:
+                if k.arg == S and isinstance(k.value, ast.Name):
+                    lst = k.value.id
+            for a in c.args:
+                if isinstance(a, ast.Dict):
+                    for kk, vv in zip(a.keys, a.values):
+                        if repo.const(fi.module, kk) == S and isinstance(vv, ast.Name):
+                            lst = vv.id
+    if lst is None:
+        raise AnalysisError("sel_nearest: isel(site=<list>) not found")
+    loops = [l for l in ast.walk(fi.node) if isinstance(l, ast.For) and any(
+        isinstance(c, ast.Call) and isinstance(c.func, ast.Attribute) and c.func.attr == "append" and unparse(c.func.value) == lst for c in ast.walk(l))]
+    if len(loops) != 1 or "lons" not in unparse(loops[0].iter):
+        raise AnalysisError("sel_nearest: the loop over the query points filling the index list was not found")
+    bad = None
+    for n in ast.walk(fi.node):
+        if isinstance(n, (ast.Assign, ast.AugAssign)):
+            tg = n.targets if isinstance(n, ast.Assign) else [n.target]
+            if any(isinstance(t, ast.Name) and t.id == lst for t in tg):
+                v = n.value
+                if not (isinstance(n, ast.Assign) and isinstance(v, ast.List) and not v.elts):
+                    bad = n
+        if isinstance(n, ast.Call) and isinstance(n.func, ast.Attribute) and n.func.attr in ("sort", "reverse", "insert") and unparse(n.func.value) == lst:
+            bad = n
+    if bad is not None:
+        rep.fail("R-C14-9", fi.file, bad.lineno, fi.qualname, unparse(bad)[:110],
+                 f"'{lst}' is rebuilt after the loop: the selected stations are no longer returned in the order of the query points (np.unique / "
+                 "sorted give ascending dataset index), so result i is not the station nearest to query point i")
+    else:
+        rep.ok("R-C14-9", f"{fi.file}:{loops[0].lineno} sel_nearest", f"{lst}.append(..) in the loop over the query points", "query order preserved")
+
+
 def run(repo, rep, tier):
     rep.rule("R-C14-8", "every parameter of the functions behind this property is read (site selection): none is accepted and then ignored")
     from .shared import unused_parameters
@@ -371,6 +442,7 @@ def run(repo, rep, tier):
     epilogues(repo, rep)
     idw(repo, rep)
     tolerance(repo, rep)
+    query_order(repo, rep)
     # shared: accessor state + input mutation on the selection paths
     from ..effects import Engine
     eng = Engine(repo)
